@@ -225,9 +225,12 @@ def random_cases(family, rng, count):
                 if k["fn"] in ("truncate", "slice_value", "slice_index", "truncate_index", "normalize", "shiftscale", "linear_trend") \
                         and "container" not in k and all(r[1] == 1 for r in k.get("x", k.get("a"))):
                     k["container"] = rng.choice(["int", "int32", "list"])
+    for k in out:       # the same repeat in a much smaller time unit (an exact power-of-two change of scale)
+        if k["fn"] == "repeat" and "x0" not in k and k.get("container", "array") == "array" and rng.random() < 0.12:
+            k["xscl"] = rng.choice([-34, -40, -50])
     # the same requests far from the origin of the time axis (epoch seconds, 2^40): an exact translation, see fnexec.xoff
     for k in out:
-        if k["fn"] in ("truncate", "slice_value", "repeat", "interp") and "x0" not in k and rng.random() < 0.15 \
+        if k["fn"] in ("truncate", "slice_value", "repeat", "interp") and "x0" not in k and "xscl" not in k and rng.random() < 0.15 \
                 and k.get("container", "array") in ("array", "list", "series") and "xcontainer" not in k and "qcontainer" not in k \
                 and all(r[1] in (1, 2, 4, 8, 16, 32, 64, 128, 256) for r in k["x"]):        # translated abscissae must stay exactly representable
             k["xoff"] = [rng.choice([-1, 1]), rng.choice([31, 40])]
@@ -235,7 +238,7 @@ def random_cases(family, rng, count):
 
 
 CASE_KEYS = ("fn", "x", "y", "r", "a", "b", "left", "right", "lr", "rr", "start", "stop", "step", "explicit_none", "q", "n", "mode",
-             "qcontainer", "xcontainer", "explicit_method", "x0", "y0", "pre", "c", "normalized", "axis", "other", "lo", "hi", "op", "v", "container", "method", "m", "b", "xoff", "r_kind", "intcoef", "also_n")   # x0 / y0 / pre are already listed
+             "qcontainer", "xcontainer", "explicit_method", "x0", "y0", "pre", "c", "normalized", "axis", "other", "lo", "hi", "op", "v", "container", "method", "m", "b", "xoff", "r_kind", "intcoef", "also_n", "xscl")   # x0 / y0 / pre are already listed
 
 
 def case_of_event(ev):
